@@ -1,5 +1,39 @@
 """C10: Execute is pure (no residue). spec: JetExec.tla (ExecStart/ExecEnd, pool), Gen_C10.tla."""
 from execfam import *
+import json, os
+
+def access_histories(rep, wd, exe):
+    """process-wide memo tables (struct field index cache): the access paths of JetAccess over the struct roots are
+    replayed in one process in the enumerated order and in the reverse order - what an access yields must not
+    depend on which accesses ran before it"""
+    vec = os.path.join(wd, "acc_c10.ndjson")
+    with open(vec, "w") as sink:
+        r = run_tlc(wd, "JetAccess.tla", "MC_Access_c10.cfg", workers=8, heap="4g", timeout=1200, keep_vecs=False, vec_sink=sink, deque=True)
+    need_ok(r, "MC_Access_c10")
+    rep.add_tlc(r, "MC_Access_c10")
+    lines = open(vec).read().split("\n")
+    lines = [l for l in lines if l.strip()]
+    # group by root so that one order meets the nil embedded pointer (outer2) after the non-nil one, the other before
+    lines.sort(key=lambda l: json.loads(l).get("root", ""))
+    for order, ls in (("forward", lines), ("reverse", lines[::-1])):
+        f = os.path.join(wd, "acc_c10_%s.ndjson" % order)
+        open(f, "w").write("\n".join(ls) + "\n")
+        res = f + ".res"
+        p = run_harness(exe, ["replay-C06", f, res], timeout=1800)
+        if p.returncode != 0:
+            raise Inconclusive("replay-C06 (%s) failed: %s" % (order, (p.stderr or p.stdout)[-1000:]))
+        n = 0
+        for line in open(res):
+            rr = json.loads(line)
+            n += 1
+            if rr.get("ok"):
+                continue
+            if not rr.get("sig"):
+                raise Inconclusive("harness: " + str(rr.get("detail")))
+            sig = {"kind": "history-access", "order": order, "what": rr["sig"].get("kind"), "root": rr["sig"].get("root")}
+            rep.violation(sig, {"replay_cmd": "replay-C06", "vector": rr.get("case"), "observed": rr.get("observed"),
+                                "expected": rr.get("expected"), "detail": "in %s order: %s" % (order, rr.get("detail"))})
+        rep.evaluations += n
 
 def run(rep, tier, seed):
     wd = spec_scratch()
@@ -13,6 +47,7 @@ def run(rep, tier, seed):
     gen_and_replay(rep, wd, exe, "Gen_C10.tla", "C10_d%d" % d, {"Depth": d}, {"Kinds": "WrapKinds"}, extra_inv=["SpecPure"])
     # the same histories with the odd-numbered executions going through a second Set (same templates, another escaper)
     replay_vectors(rep, exe, "replay-exec-alt", os.path.join(wd, "vec_C10_d%d.ndjson" % d), shards=4)
+    access_histories(rep, wd, exe)
     if tier == "thorough":
         asis_refuted(rep, wd, "Gen_C10.tla", "C10_asis", {"Depth": 1, "FixPool": "FALSE"}, {"Kinds": "WrapKinds"}, ("StartsClean",))
     repo_suite_traces(rep, wd)
